@@ -63,8 +63,8 @@ REAL = ['dateutil.tz tzical/_tzicalvtz, dateutil.rrule (rrulestr, cached sets), 
 STUB = ["the zone's lookup-cache mutex and the recurrence-cache mutexes (SimLock)", 'thread scheduling (LINE events of tz/tz.py, tz/_common.py, rrule.py)', 'file system for tzical(path) (SimFS)', 'VTIMEZONE texts generated from POSIX rule pairs']
 
 CLASSES = {
-    "hist":    dict(quick=1500, thorough=40000, timeout=120),
-    "threads": dict(quick=1000, thorough=25000, timeout=120),
+    "hist":    dict(quick=1200, thorough=40000, timeout=120),
+    "threads": dict(quick=1500, thorough=25000, timeout=120),
     "bad":     dict(quick=600, thorough=10000, timeout=60),
 }
 
@@ -328,7 +328,7 @@ def generate(cls, rng):
                      for _ in range(rng.choice(DP.pick([1, 2, 2, 3],
                                                        [2, 3, 4, 4])))]
     kind = rng.choice(["random", "random", "pb", "pct", "pbx", "pbx"])
-    if rng.random() < 0.4:
+    if rng.random() < 0.5:
         # cold start: every thread's first query races on components whose
         # recurrence caches are still empty and complete within one fill
         spec, form = gen_zone_spec(rng, rng.choice(["rdate", "rrule_count", "rrule_until"]))
